@@ -490,7 +490,8 @@ func Run(o *drv.Out) {
 	lim := &limiter{o: o, seen: map[string]int{}}
 	RunWitnesses(o, v, lim)
 	RunResplitCorpus(o, v, lim)
-	RunPairResplitCorpus(o, v, lim)
+	RunLengthResplitCorpus(o, v, lim)
+	RunPairResplitCorpus(o, v, lim) // the known finding comes last of the corpus
 	RunSMT(o, v, lim)
 	RunStore(o, lim)
 	o.Extra["verify_hangs_killed"] = v.Hangs
